@@ -186,9 +186,30 @@ type propInfo struct {
 // the evidence file and returns the process exit code.
 func (r *Recorder) Finish(w *World, info propInfo, tier string, seed int, outDir, verifDir string, start time.Time) int {
 	// vacuity guard
+	// instances are counted in units that survive a behaviour-preserving
+	// refactoring: distinct constructs up to the first '#' (the function, field
+	// or table row), not paths or sites within them
 	perRule := map[string]int{}
+	units := map[string]bool{}
 	for _, o := range r.Obs {
-		perRule[o.Rule]++
+		u := o.Construct
+		if i := strings.IndexByte(u, '#'); i >= 0 {
+			u = u[:i]
+		}
+		if !units[o.Rule+"/"+u] {
+			units[o.Rule+"/"+u] = true
+			perRule[o.Rule]++
+		}
+	}
+	if os.Getenv("PSACHECK_UNITS") != "" {
+		var ks []string
+		for k := range perRule {
+			ks = append(ks, k)
+		}
+		sort.Strings(ks)
+		for _, k := range ks {
+			fmt.Printf("UNITS %s %d (floor %d)\n", k, perRule[k], r.Floors[k])
+		}
 	}
 	var rules []string
 	for k := range r.Floors {
@@ -197,7 +218,7 @@ func (r *Recorder) Finish(w *World, info propInfo, tier string, seed int, outDir
 	sort.Strings(rules)
 	for _, rule := range rules {
 		if perRule[rule] < r.Floors[rule] {
-			r.Undecide("floor", rule, "-", fmt.Sprintf("rule %s matched %d instances, fewer than the %d confirmed by hand on the pinned tree (vacuity guard)", rule, perRule[rule], r.Floors[rule]))
+			r.Undecide("floor", rule, "-", fmt.Sprintf("rule %s matched %d instances, fewer than the %d confirmed by hand on the pinned tree (vacuity guard; instances = distinct functions, fields or rows)", rule, perRule[rule], r.Floors[rule]))
 		} else {
 			r.Prove("floor", rule, "-", fmt.Sprintf("%d instances >= floor %d", perRule[rule], r.Floors[rule]), false)
 		}
